@@ -111,6 +111,9 @@ func poolFor(name string) []LeafDef {
 		case "extra":
 			p = append(p, poolExtra...)
 		case "pres":
+			// (three times: a presence container with its own variant and children of the same owner is drawn often enough)
+			p = append(p, poolPresence...)
+			p = append(p, poolPresence...)
 			p = append(p, poolPresence...)
 		case "choice":
 			p = append(p, poolChoice...)
